@@ -340,10 +340,13 @@ static void op_pinv(void) {
     rmat *RA = rm_of(A, m, n), *P = rm_from(inv), *AP = rm_mul(RA, P), *PA = rm_mul(P, RA), *APA = rm_mul(AP, RA), *PAP = rm_mul(PA, P), *APt = rm_T(AP), *PAt = rm_T(PA);
     double base = CSAFE * DEPS * m * kap * kap;   /* q = 2: normal equations */
     double e1 = (double)rm_maxabs_diff(APA, RA), e2 = (double)rm_maxabs_diff(PAP, P), e3 = (double)rm_maxabs_diff(AP, APt), e4 = (double)rm_maxabs_diff(PA, PAt);
-    snprintf(key, sizeof key, "penrose1|MatrixMoorePenrosePseudoinverse|%s", cls); judge(e1, base * s1, key, "(%dx%d) s1 %g fam %d: max|A A+ A - A|", m, n, s1, fam);
-    snprintf(key, sizeof key, "penrose2|MatrixMoorePenrosePseudoinverse|%s", cls); judge(e2, base / smin, key, "(%dx%d) s1 %g fam %d: max|A+ A A+ - A+|", m, n, s1, fam);
-    snprintf(key, sizeof key, "penrose3|MatrixMoorePenrosePseudoinverse|%s", cls); judge(e3, base, key, "(%dx%d) s1 %g fam %d: max|(A A+)' - A A+|", m, n, s1, fam);
-    snprintf(key, sizeof key, "penrose4|MatrixMoorePenrosePseudoinverse|%s", cls); judge(e4, base, key, "(%dx%d) s1 %g fam %d: max|(A+ A)' - A+ A|", m, n, s1, fam);
+    /* one key per input class for the four conditions together (they are jointly the definition of A+); the message names
+     * the conditions that fail, the margin file keeps them apart */
+    double e[4] = {e1, e2, e3, e4}, t[4] = {base * s1, base / smin, base, base}, worst = 0; char which[40] = ""; int wl = 0;
+    for (int c = 0; c < 4; c++) { char mk[160]; snprintf(mk, sizeof mk, "penrose%d|MatrixMoorePenrosePseudoinverse|%s", c + 1, cls); double r = t[c] > 0 ? e[c] / t[c] : INFINITY; margin_note(mk, r); if (!(r <= worst)) worst = r; if (!(r <= 1)) wl += snprintf(which + wl, sizeof which - (size_t)wl, " (%d)", c + 1); }
+    snprintf(key, sizeof key, "penrose|MatrixMoorePenrosePseudoinverse|%s", cls);
+    vx_check(worst <= 1, key, "(%dx%d) s1 %g kappa %g fam %d: conditions%s fail; |A A+ A - A| %.3g (allowed %.3g), |A+ A A+ - A+| %.3g (%.3g), |(A A+)' - A A+| %.3g (%.3g), |(A+ A)' - A+ A| %.3g (%.3g)",
+             m, n, s1, kap, fam, which, e1, t[0], e2, t[1], e3, t[2], e4, t[3]);
     vx_outcome(hm_hash(inv, 50));
     rm_free(RA); rm_free(P); rm_free(AP); rm_free(PA); rm_free(APA); rm_free(PAP); rm_free(APt); rm_free(PAt);
   } else vx_outcome(79);
